@@ -199,6 +199,22 @@ def gen_response(rng, allow=None, position='any'):
         fields.append(('Connection', rng.choice(['close', 'Close'])))
         linger = True
     head = format_head(status, STATUS_TEXT[status], fields, style)
+    if rng.random() < 0.01 and framing != 'interim':
+        # a header block (status line and header lines, without the empty line) of exactly the documented limit of the
+        # client's reader, 32768 bytes, or a few bytes less: still to be accepted
+        limit = rng.choice([32768, 32768, 32767, 32766, 32760])
+        eol_len = 1 if style == 'lf' else 2
+        for _ in range(3):
+            deficit = limit - (len(head) - eol_len)
+            if deficit == 0:
+                break
+            pad = [f for f in fields if f[0] == 'X-Pad']
+            have = len(pad[0][1]) if pad else None
+            if have is None:
+                fields.insert(1, ('X-Pad', 'p' * max(1, deficit - 12)))
+            else:
+                fields[fields.index(pad[0])] = ('X-Pad', 'p' * max(1, have + deficit))
+            head = format_head(status, STATUS_TEXT[status], fields, style)
     interim = b''
     if framing == 'interim':
         fields.append(('Content-Length', str(len(coded))))
